@@ -5,7 +5,7 @@ coq/theories/Gen/EqHashSrc.v:
   module level   _internal_props (a list of string constants), _get_all_fields_by_name
   Field          __serialize__, __get__ (with its local helper)
   Structure      get_all_fields_by_name, __str__ (with its local helpers list_to_str / dict_to_str / to_str),
-                 __repr__, __eq__, __ne__, __hash__, __getstate__, __deepcopy__, __copy__
+                 __repr__, __eq__, __ne__, __hash__, __getstate__, __setstate__, __deepcopy__, __copy__
 
 Every function becomes  <name> (W : world) (p_<param> : pyval) ... : res pyval  over Base/PyVal.v and the
 dynamic-operator libraries Base/PyOps.v, PyOps2.v, PyObj.v, PyOpsDerive.v, PyOpsEqHash.v.  `W` carries the
@@ -28,8 +28,10 @@ The subset (general idioms, nothing keyed to today's text):
               enum.Enum and typedpy's classes, callable, s.startswith(p); anything else by truthiness.
   statements  assignment to a local; on a local that the function OWNS (bound to a display, a comprehension,
               `cls.__new__(cls)`; it loses ownership when it is aliased): `l.append(x)`, `d.update(e)`,
-              `o.a = x`, `setattr(o, k, x)`, `delattr(o, a)`, `o.__dict__.update(d)` -- the store re-binds the
-              local; if / elif / else; `for t in it:` as a fold over the items with the re-bound locals as state,
+              `o.a = x`, `setattr(o, k, x)`, `delattr(o, a)`, `o.__dict__.update(d)`, `d[k] = x`,
+              `o.__dict__[k] = x`, `o.__dict__.setdefault(k, x)` -- the store re-binds the local (in
+              __setstate__, whose `self` is the object its caller has just created, `self` is owned and the
+              result is the updated object); if / elif / else; `for t in it:` as a fold over the items with the re-bound locals as state,
               `continue` and `return` allowed in the body (py_for); return; raise of a builtin exception class;
               nested `def`s whose free names are parameters of the enclosing function (lifted);
               `memo[id(x)] = y` on a parameter (the deepcopy memo protocol) is outside the value-level model and
@@ -224,7 +226,12 @@ def _rebound_names(stmts):
         elif isinstance(t, ast.Attribute) and isinstance(t.value, ast.Name):
             add(t.value.id)
         elif isinstance(t, ast.Subscript) and isinstance(t.value, ast.Name):
-            pass        # item stores are only accepted as the memo idiom (skipped)
+            # the memo idiom `memo[id(x)] = y` is skipped; any other item store re-binds the (owned) dict
+            if not (isinstance(t.slice, ast.Call) and isinstance(t.slice.func, ast.Name) and t.slice.func.id == "id"):
+                add(t.value.id)
+        elif isinstance(t, ast.Subscript) and isinstance(t.value, ast.Attribute) and t.value.attr == "__dict__" \
+                and isinstance(t.value.value, ast.Name):
+            add(t.value.value.id)
         else:
             raise Unsupported("assignment target %s" % ast.dump(t)[:60])
 
@@ -242,7 +249,7 @@ def _rebound_names(stmts):
                 r = f.value
                 if isinstance(r, ast.Attribute) and r.attr == "__dict__":
                     r = r.value
-                if isinstance(r, ast.Name) and f.attr in MUTATORS:
+                if isinstance(r, ast.Name) and (f.attr in MUTATORS or f.attr == "setdefault"):
                     add(r.id)
             elif isinstance(f, ast.Name) and f.id in ("setattr", "delattr") and n.value.args \
                     and isinstance(n.value.args[0], ast.Name):
@@ -588,6 +595,8 @@ class FnTr:
                 b, a = self.val(e.args[0], read=True)
                 t = self.fresh()
                 return b + [(t, "py_len %s" % a)], t
+            if f.id == "set" and plain and nargs == 0 and not self.mod.is_global("set"):
+                return [], "(PSet false [])"                # set(): a new empty set
             if f.id == "sorted" and plain and nargs == 1:
                 b, xs = self.iter_source(e.args[0])
                 ys = self.fresh("ys")
@@ -812,6 +821,15 @@ class FnTr:
                 b, a = self.val(c.args[0], read=True)
                 return self.rebind_after(r.value.id, "object", b, "inst_dict_update %s %s" % (v.atom, a), nxt)
             return None
+        if isinstance(f, ast.Attribute) and f.attr == "setdefault" and plain and len(c.args) == 2 \
+                and isinstance(f.value, ast.Attribute) and f.value.attr == "__dict__" \
+                and isinstance(f.value.value, ast.Name) and f.value.value.id in self.env:
+            # o.__dict__.setdefault(k, x) as a statement (its result is dropped)
+            v = self.owned_var(f.value.value.id, ("object",), "__dict__.setdefault")
+            bk, ak = self.val(c.args[0], read=True)
+            bv, av = self.val(c.args[1])
+            return self.rebind_after(f.value.value.id, "object", bk + bv,
+                                     "inst_dict_setdefault %s %s %s" % (v.atom, ak, av), nxt)
         if self.is_builtin(f, "setattr") and plain and len(c.args) == 3 and isinstance(c.args[0], ast.Name):
             v = self.owned_var(c.args[0].id, ("object",), "setattr")
             name = self.const_str(c.args[1])
@@ -903,6 +921,22 @@ class FnTr:
             self.note(s, "memo registration `%s` skipped: outside the value-level model (it matters only for "
                          "cyclic / shared sub-objects)" % ast.unparse(s))
             return nxt()
+        if isinstance(s, ast.Assign) and len(s.targets) == 1 and isinstance(s.targets[0], ast.Subscript):
+            t = s.targets[0]
+            if isinstance(t.value, ast.Name) and t.value.id in self.env:
+                # d[k] = x on a dict the function owns; CPython evaluates x, then d and k
+                v = self.owned_var(t.value.id, ("dict",), "item store")
+                bv, av = self.val(s.value)
+                bk, ak = self.val(t.slice, read=True)
+                return self.rebind_after(t.value.id, "dict", bv + bk, "py_dict_setitem %s %s %s" % (v.atom, ak, av), nxt)
+            if isinstance(t.value, ast.Attribute) and t.value.attr == "__dict__" and isinstance(t.value.value, ast.Name) \
+                    and t.value.value.id in self.env:
+                # o.__dict__[k] = x on an object the function owns: a plain store, no descriptor involved
+                v = self.owned_var(t.value.value.id, ("object",), "__dict__ item store")
+                bv, av = self.val(s.value)
+                bk, ak = self.val(t.slice, read=True)
+                return self.rebind_after(t.value.value.id, "object", bv + bk,
+                                         "inst_dict_setitem %s %s %s" % (v.atom, ak, av), nxt)
         if isinstance(s, ast.Expr) and isinstance(s.value, ast.Call):
             r = self.mutation(s, nxt)
             if r is not None:
@@ -1107,8 +1141,11 @@ class Gen:
             self._class_values[key] = out
         return self._class_values[key]
 
-    def translate(self, node, coqname, cls=None, kind="function", decorator=None, helpers=None, lift=False):
-        """-> (text, Sig of the main function).  helpers: {local def name: coq name}"""
+    def translate(self, node, coqname, cls=None, kind="function", decorator=None, helpers=None, lift=False,
+                  mutator=False):
+        """-> (text, Sig of the main function).  helpers: {local def name: coq name}
+        mutator: a method that returns nothing and acts on `self`, an object its only caller has just created
+        (__setstate__ on the result of cls.__new__(cls)): `self` is owned, the result is the updated object"""
         helpers = helpers or {}
         if _decorators(node) != ([decorator] if decorator else []):
             raise Unsupported("decorators of %s are %s" % (node.name, _decorators(node)))
@@ -1180,8 +1217,17 @@ class Gen:
                 tr.env[p] = Var("p_%s" % p)
             if hnode is node and cls:
                 tr.selfname = hp[0] if hp else None
-            fctx = Ctx(lambda a: "Ok %s" % a)
-            body = tr.block(list(hnode.body), fctx, lambda: "(Ok PNone)")
+            if mutator and hnode is node:
+                if not (cls and hp) or nested:
+                    raise Unsupported("mutator %s" % node.name)
+                if any(isinstance(x, ast.Return) for x in ast.walk(node)):
+                    raise Unsupported("return in the mutator %s" % node.name)
+                tr.env[hp[0]] = Var("p_%s" % hp[0], "object")
+                fctx = Ctx(lambda a: "Raise Unmodelled")
+                body = tr.block(list(hnode.body), fctx, lambda tr=tr, me=hp[0]: "(Ok %s)" % tr.lookup(me).atom)
+            else:
+                fctx = Ctx(lambda a: "Ok %s" % a)
+                body = tr.block(list(hnode.body), fctx, lambda: "(Ok PNone)")
             notes = "".join("(* note: %s *)\n" % _comment(n) for n in sorted(set(tr.notes)))
             plist = "".join(" (p_%s : pyval)" % p for p in list(extra) + list(hp))
             texts.append((hnode, cq, notes, plist, body, list(extra) + list(hp)))
@@ -1229,10 +1275,10 @@ def render():
     except (OSError, SyntaxError) as e:
         gen, err = None, str(e)
 
-    def method(cls, fn, coq, kind="method", decorator=None, helpers=None):
+    def method(cls, fn, coq, kind="method", decorator=None, helpers=None, mutator=False):
         def go():
             node = gen.mod.find_method(cls, fn)
-            text, sig = gen.translate(node, coq, cls=cls, kind=kind, decorator=decorator, helpers=helpers)
+            text, sig = gen.translate(node, coq, cls=cls, kind=kind, decorator=decorator, helpers=helpers, mutator=mutator)
             gen.reg[(kind, fn) if kind == "classmethod" else ("method", cls, fn)] = sig
             return text
         return go
@@ -1283,6 +1329,8 @@ def render():
         ("Src_Structure_ne", "structures.py::Structure.__ne__", method("Structure", "__ne__", "Src_Structure_ne"), None),
         ("Src_Structure_hash", "structures.py::Structure.__hash__", method("Structure", "__hash__", "Src_Structure_hash"), None),
         ("Src_Structure_getstate", "structures.py::Structure.__getstate__", method("Structure", "__getstate__", "Src_Structure_getstate"), None),
+        ("Src_Structure_setstate", "structures.py::Structure.__setstate__",
+         method("Structure", "__setstate__", "Src_Structure_setstate", mutator=True), None),
         ("Src_Structure_deepcopy", "structures.py::Structure.__deepcopy__", method("Structure", "__deepcopy__", "Src_Structure_deepcopy"), None),
         ("Src_Structure_copy", "structures.py::Structure.__copy__", method("Structure", "__copy__", "Src_Structure_copy"), None),
     ]
